@@ -89,7 +89,7 @@ def judge(check: core.Check, obs: list[dict], label: str, prop_clauses: set[str]
                 if v[5:] in prop_clauses:
                     check.violation(core.canon(case), v[5:], {"case": o, "source": label})
             elif v.startswith("dev:"):
-                if ("Sound" in prop_clauses) == (v[4:] == "enum-instance-accepted-as-iterable"):
+                if ("Sound" in prop_clauses) == (v[4:] in ("enum-instance-accepted-as-iterable", "typeddict-as-plain-dict")):
                     check.violation(v[4:], v[4:], {"case": o, "source": label})
             elif v.startswith("drift:"):
                 check.drift({"verdict": v, "case": o, "source": label})
